@@ -314,6 +314,7 @@ def tlc_consts(d, mode, kinds, classes, chunks=(0,), sample=None, colmax=2, nmax
 
 
 def tlc(res, name, consts, invariants, timeout):
+    vlib.log("[tlc] %s ..." % name)
     r = vlib.run_tlc("StoreQuery", name, timeout=timeout, cfg_text=vlib.cfg_text(consts, invariants=invariants))
     vlib.tlc_ok(r, name)
     if r["violated"]:
@@ -321,6 +322,7 @@ def tlc(res, name, consts, invariants, timeout):
     if r["records"].get("BAD"):
         raise Undecided("unparsable TLC output in %s: %s" % (name, r["records"]["BAD"][:2]))
     res.tlc(r, name)
+    vlib.log("[tlc] %s: %s distinct states in %.1fs" % (name, r.get("distinct"), r["wall_s"]))
     return r
 
 
@@ -445,8 +447,13 @@ def is_overrun_outcome(real, tri, expect, b):
     fails (EOF, corrupt input) or rows decoded from the wrong place are stamped with intervals of the last year"""
     if isinstance(real, str):
         return any(x in real for x in ("EOF", "snappy", "corrupt"))
-    exp = [tuple(x) for x in expect]
-    extra = [x for x in tri if tuple(x) not in exp]
+    left = [tuple(x) for x in expect]
+    extra = []
+    for x in tri:            # multiset difference: a row decoded from the wrong place may look like a stored row
+        if tuple(x) in left:
+            left.remove(tuple(x))
+        else:
+            extra.append(x)
     y1s = year_start(b.c.y1)
     return bool(extra) and all((x[0] == "?" and x[1] >= y1s) or (x[0] != "?" and x[0] > b.d.ni0) for x in extra)
 
@@ -464,16 +471,21 @@ def run_single(prop, tier):
     inv = ["ImplRefinesAbs", "DeviationsExplainAll"]
 
     # ---------------- E1: exhaustive check of the refinement over all contents x queries ----------------
+    kc = (["variable", "fixed"], ["intraday", "daily"])
     if mode == "range":
-        de = Dims(2, 1, 2, 1) if quick else Dims(3, 2, 2, 1)
-        tlc(res, "StoreQuery_range_mc.cfg", tlc_consts(de, mode, ["variable", "fixed"], ["intraday", "daily"]), inv, 3000)
-        if not quick:
-            tlc(res, "StoreQuery_range_dup_mc.cfg", tlc_consts(Dims(2, 1, 2, 2), mode, ["variable"], ["intraday"]), inv, 3000)
+        if quick:
+            tlc(res, "StoreQuery_range_mc.cfg", tlc_consts(Dims(2, 1, 2, 1), mode, *kc), inv, 3000)
+        else:
+            tlc(res, "StoreQuery_range_mc31.cfg", tlc_consts(Dims(3, 1, 2, 1), mode, kc[0], ["intraday"]), inv, 6000)
+            tlc(res, "StoreQuery_range_mc22.cfg", tlc_consts(Dims(2, 2, 2, 1), mode, *kc), inv, 6000)
+            tlc(res, "StoreQuery_range_dup_mc.cfg", tlc_consts(Dims(2, 1, 1, 2), mode, ["variable"], ["intraday"]), inv, 6000)
     else:
-        de = Dims(2, 1, 2, 1) if quick else Dims(2, 2, 2, 1)
-        tlc(res, "StoreQuery_limit_mc.cfg", tlc_consts(de, mode, ["variable", "fixed"], ["intraday", "daily"], chunks=[0] if quick else [0, 10]), inv, 3000)
-        if not quick:
-            tlc(res, "StoreQuery_limit_dup_mc.cfg", tlc_consts(Dims(2, 1, 1, 2), mode, ["variable"], ["intraday"]), inv, 3000)
+        if quick:
+            tlc(res, "StoreQuery_limit_mc.cfg", tlc_consts(Dims(2, 1, 2, 1), mode, *kc), inv, 3000)
+        else:
+            tlc(res, "StoreQuery_limit_mc21.cfg", tlc_consts(Dims(2, 1, 2, 1), mode, *kc, chunks=[0, 10]), inv, 6000)
+            tlc(res, "StoreQuery_limit_mc22.cfg", tlc_consts(Dims(2, 2, 1, 1), mode, *kc, chunks=[0, 10]), inv, 6000)
+            tlc(res, "StoreQuery_limit_dup_mc.cfg", tlc_consts(Dims(2, 1, 1, 2), mode, ["variable"], ["intraday"]), inv, 6000)
 
     # ---------------- cases: sampled contents x all queries, emitted by TLC ----------------
     # limit, quick: one offset class with up to two records of the same time and N <= 3 keep the emitted space
@@ -481,12 +493,18 @@ def run_single(prop, tier):
     d = Dims(3, 2, 2, 1) if mode == "range" or not quick else Dims(3, 2, 1, 2)
     nmax = 3 if quick and mode == "limit" else 99
     tfs = QUICK_TFS if quick else [t for t, _ in TIMEFRAMES]
-    plan = Plan(prop, tier, rng, d, tfs, nconc=1 if quick else 2, ncontent=2 if quick else 4)
+    if quick:
+        plan = Plan(prop, tier, rng, d, tfs, nconc=1, ncontent=2)
+    elif mode == "range":
+        plan = Plan(prop, tier, rng, d, tfs, nconc=2, ncontent=4)
+    else:
+        plan = Plan(prop, tier, rng, d, tfs, nconc=2, ncontent=2)
+        nmax = 6
     root = os.path.join(vlib.scratch(), "root_%s" % prop)
     plan.probe(binary, os.path.join(vlib.scratch(), "probe_%s" % prop))
     shutil.rmtree(os.path.join(vlib.scratch(), "probe_%s" % prop), ignore_errors=True)
     codes = sorted(set(it["code"] for it in plan.items))
-    r = tlc(res, "StoreQuery_%s_emit.cfg" % mode, tlc_consts(d, mode, ["variable", "fixed"], ["intraday", "daily"], sample=codes, nmax=nmax), inv + ["Emit"], 3000)
+    r = tlc(res, "StoreQuery_%s_emit.cfg" % mode, tlc_consts(d, mode, ["variable", "fixed"], ["intraday", "daily"], sample=codes, nmax=nmax), inv + ["Emit"], 6000)
     emitted = group_cases(r["records"].get("CASE", []), st_key)
     res.cov["cases_emitted_by_tlc"] = sum(len(v) for v in emitted.values())
 
@@ -540,7 +558,11 @@ def run_single(prop, tier):
         cid = "c%d" % n
         cases.append({"id": cid, "ops": ops})
         meta[cid] = (b, base, qs, ops)
+    import time as _time
+    t0 = _time.time()
     obs = vlib.run_cases(binary, cases, timeout=3000 if quick else 7000)
+    vlib.log("[replay] %d operations in %.1fs" % (sum(len(x["ops"]) for x in cases), _time.time() - t0))
+    res.cov["replay_wall_s"] = round(_time.time() - t0, 1)
     shutil.rmtree(root, ignore_errors=True)
 
     hits = {}
@@ -721,7 +743,11 @@ def run_multi(prop, tier):
             cid = "m%dx%d" % (n, bn)
             cases.append({"id": cid, "ops": ops})
             meta[cid] = (bks, names, base, qs, ops, colmap)
+    import time as _time
+    t0 = _time.time()
     obs = vlib.run_cases(binary, cases, timeout=3000 if quick else 7000)
+    vlib.log("[replay] %d operations in %.1fs" % (sum(len(x["ops"]) for x in cases), _time.time() - t0))
+    res.cov["replay_wall_s"] = round(_time.time() - t0, 1)
     shutil.rmtree(root, ignore_errors=True)
     nq = 0
     shapes = set()
